@@ -18,6 +18,10 @@ CONSTANTS
   Cap = 3
   Wins = {1, 2, 3}
   OwnStorage = TRUE
+  Forms = {"ln"}
+  Shapes = {"plain"}
+  WholeMsg = TRUE
+  SignedCid = TRUE
   Sink <- KeepAll
-INVARIANTS TypeOK Unique AliasSame WholeLines OnePerCall CounterOk OperandsUntouched
+INVARIANTS TypeOK Unique AliasSame WholeLines OnePerCall Adjacent CounterOk OperandsUntouched
 CHECK_DEADLOCK FALSE
